@@ -25,12 +25,12 @@ TRUSTED = ['time.sleep sleeps at least its argument, perf_counter is monotone (e
            '(Coq section variable R, read), applied to the text delivered by fetch_seq (file content or in-memory answer); that sugar.read depends on the text only - not on the '
            'file name/extension, a text-mode file vs StringIO, or earlier reads - is tested by the runs (CRLF payloads, ext different from the format, re-inspection), not proved']
 ASSUMPTIONS = ['single-threaded client', 'integer-tick virtual clock']
-LEVEL_TEXT = ('Coq theorems (40) over executable models of the whole of sugar/web/_entrez.py (wait_before_request as repaired by fix a09a4a0 / F53, found in this round). RATE, for every '
+LEVEL_TEXT = ('Coq theorems (41) over executable models of the whole of sugar/web/_entrez.py (wait_before_request as repaired by fix a09a4a0 / F53, found in this round). RATE, for every '
               'call history with arbitrary non-negative arrival gaps, sleep overshoots and request durations (failed requests count as starts): with one key setting the code is the '
               'one-limit machine (const_key_is_run, trim_noop_when_fits) and at most N starts lie in ANY half-open one-second window [x, x+W), x arbitrary (window_limit; N, W '
               'regenerated); the limit is chosen per call, and for ANY history of key switches every request starts at least one window after the request N places before it, N the limit '
               'of THAT request (rate_limit_current_key), so every window containing a request start holds at most N starts up to it - the exact statement when the key changes inside a '
-              'window: at most 3 starts if its last request is keyless, never 4 keyless starts, at most 10 in all (window_limit_current_key, window_limit_any_key); the history that '
+              'window: at most 3 starts if its last request is keyless, never 4 keyless starts, at most 10 in all (window_limit_current_key, keyless_window_limit, window_limit_any_key); the history that '
               'defeated the code before the fix is limited (key_removed_limited); sleep iff the record holds N stamps and the oldest is younger than W (wait_sleeps_iff, '
               'client_sleep_iff), in reachable states iff N requests started within the last second (sleep_iff_window_full), a cache hit never sleeps (cache_hit_no_sleep); the requests '
               'of any history of public calls on one client are such a limiter history (client_window_limit, client_window_limit_const) and the start times the events report are its '
